@@ -116,10 +116,22 @@ def _body(reg, prop, clauses, it, case, with_y, with_mask, tag):
             shape_ok = (name == "Pinhole1D" and len(args) == 2 and selected(args[0], arrs["x"])
                         and selected(args[1], attrs["dx"])) or \
                        (name == "Perfect1D" and len(args) == 1 and selected(args[0], arrs["x"]))
-            goal = z3.And(z3.BoolVal(bool(shape_ok)), z3.BoolVal(name == "Pinhole1D") == some)
             ax = list(getattr(it, "axioms", []))
-            reg.prove(oid, pc + ax, goal, function=FN, replay=rp, timeout_ms=30000,
-                      describe="Pinhole1D(x[index], dx[index]) iff some selected point has dx > 0, else Perfect1D(x[index])")
+            desc = "Pinhole1D(x[index], dx[index]) iff some selected point has dx > 0, else Perfect1D(x[index])"
+            if name == "Pinhole1D":
+                # the branch condition gives a selected position with positive width: its source index is the witness
+                reg.prove(oid, pc + ax, z3.And(z3.BoolVal(bool(shape_ok)), some), function=FN, replay=rp,
+                          timeout_ms=60000, describe=desc)
+            else:
+                # no selected position has positive width: for an arbitrary source index j that is selected, the
+                # inverse index map (instantiated at j explicitly) gives its position, where the width is <= 0
+                inst = []
+                for sch in getattr(it, "axiom_schemas", []):
+                    inst.append(z3.Implies(z3.And(j >= 0, j < sch.n, sch.mask(j)),
+                                           z3.And(sch.inv(j) >= 0, sch.inv(j) < sch.m, sch.sel(sch.inv(j)) == j)))
+                reg.prove(oid, pc + ax + inst + [j >= 0, j < n, want],
+                          z3.And(z3.BoolVal(bool(shape_ok)), DX(j) <= 0), function=FN, replay=rp, timeout_ms=60000,
+                          describe=desc)
         elif case.startswith("slit"):
             ql, qw = kw.get("q_length"), kw.get("q_width")
             shape_ok = (name == "Slit1D" and len(args) == 1 and selected(args[0], arrs["x"])
